@@ -18,6 +18,8 @@
 package validator
 
 import (
+	"bytes"
+	"io"
 	"net/http"
 
 	"fmt"
@@ -152,7 +154,14 @@ func (v *Validator) Handle(ctx *context.Context) string {
 		}
 	}
 	if v.signer != nil {
-		if err := v.signer.Verify(req.Std()); err != nil {
+		// The body of the standard request was consumed when the payload
+		// was fetched, the signature needs to be verified against the
+		// payload, which is what will be forwarded.
+		stdr := req.Std()
+		if !req.IsStream() {
+			stdr.Body = io.NopCloser(bytes.NewReader(req.RawPayload()))
+		}
+		if err := v.signer.Verify(stdr); err != nil {
 			prepareErrorResponse(http.StatusUnauthorized, "signature validator: ", err)
 			return resultInvalid
 		}
